@@ -15,7 +15,9 @@ import scen
 
 PROP = "C01"
 OWNERS = ["ed0", "edp0", "ec-a", "rsa-2048-a", "ed1", "rsa-2048-b512"]
-SIG_EDITS = ["flip", "truncate", "empty", "relabel", "other_content", "drop", "zero", "swap", "dup", "resign_by_other", "resign_by_other"]
+SIG_EDITS = ["flip", "truncate", "empty", "relabel", "other_content", "drop", "zero", "swap", "dup", "resign_by_other", "resign_by_other", "sibling_scheme", "sibling_scheme", "sibling_scheme"]
+# the same RSA key pair under its other signature scheme: another key (other id), whose signatures are not this key's
+SIBLING = {"rsa-2048-a": "rsa-2048-a512", "rsa-2048-a512": "rsa-2048-a", "rsa-2048-b": "rsa-2048-b512", "rsa-2048-b512": "rsa-2048-b"}
 OTHER_ID = "ab" * 32
 
 
@@ -117,6 +119,7 @@ def shard(binpath, seed, sh, n):
         other["readme"] += " (other)"
         reqs.append((other, sc["S"], "new"))
         reqs.append((sc["layout"], sc["S"], "builder"))       # second, independent signatures over the same content
+        reqs.append((sc["layout"], [SIBLING[k] for k in sc["S"] if k in SIBLING], "new"))
         for l in sc["links"]:
             reqs.append((l["doc"], l["signers"], "new"))
         idx.append(base)
@@ -124,7 +127,8 @@ def shard(binpath, seed, sh, n):
     cases = []
     for sc, base in zip(scs, idx):
         lw, other_w, again_w = wires[base], wires[base + 1], wires[base + 2]
-        link_w = wires[base + 3: base + 3 + len(sc["links"])]
+        sibling_w = wires[base + 3]
+        link_w = wires[base + 4: base + 4 + len(sc["links"])]
         files = pipeline.assemble(W, lw, list(zip(sc["links"], link_w)))
         S = sc["S"]
         pairs, M, mapdesc, aliased = caller_map(rng, W, S)
@@ -174,6 +178,15 @@ def shard(binpath, seed, sh, n):
                 if donors:
                     donor = rng.choice(donors)
                     sigs[j] = copy.deepcopy(next(s_ for s_ in again_w["signatures"] if s_["keyid"] == W.kid(donor)))
+                    broken = {name}
+                else:
+                    kind = "flip"
+            if kind == "sibling_scheme":
+                rsa = [i for i, s_ in enumerate(sigs) if next(k for k in S if W.kid(k) == s_["keyid"]) in SIBLING]
+                if rsa:
+                    j = rng.choice(rsa)
+                    name = next(k for k in S if W.kid(k) == sigs[j]["keyid"])
+                    sigs[j]["sig"] = next(s_["sig"] for s_ in sibling_w["signatures"] if s_["keyid"] == W.kid(SIBLING[name]))
                     broken = {name}
                 else:
                     kind = "flip"
@@ -281,7 +294,7 @@ def main(ctx):
              "leaves/containers of the signed layout; signature flip/truncate/empty/zero/relabel/other-content/drop/swap/"
              "dup}; non-trivial = at least one signer or one supplied key; distinct by SHA-256 of (wire layout, key map)",
         assumptions=["signature validity ground truth is by construction", "value equality for 'semantics-preserving' is the library's PartialEq"],
-        required=["crowd:owners:missing", "crowd:owners:flipped", "crowd:owners:foreign", "crowd:owners:all", "crowd:size:48", "crowd:size:33", "crowd:accepted", "positive_control_accepted", "positive:ed", "positive:ec", "positive:rsa", "map:empty", "map:two_ids",
+        required=["action:sig:sibling_scheme", "crowd:owners:missing", "crowd:owners:flipped", "crowd:owners:foreign", "crowd:owners:all", "crowd:size:48", "crowd:size:33", "crowd:accepted", "positive_control_accepted", "positive:ed", "positive:ec", "positive:rsa", "map:empty", "map:two_ids",
                   "map:superset", "map:disjoint", "map:subset", "map:plus_unknown_scheme_key", "action:content:set", "action:sig:flip", "action:sig:relabel",
                   "action:sig:other_content", "action:sig:drop", "action:sig:resign_by_other", "expect:reject", "observed:reject", "history:genuine_layout_verified_first:True",
                   "summary_name_given:accept", "summary_name_given:reject", "in_memory_edit:rekey_swap:effective", "in_memory_edit:readme:effective"],
